@@ -112,7 +112,7 @@ def queue(string):
     return b''.join(q) if q else b''
 
 
-def render(mtype, body, direction='receive'):
+def render(mtype, body, direction='receive', packets=True):
     """-> ('undecodable', reason) or ('ok', {encoder: bytes | None | Exception})"""
     from exabgp.bgp.message import Message
 
@@ -122,6 +122,10 @@ def render(mtype, body, direction='receive'):
     except Exception as e:  # noqa
         return 'undecodable', f'{type(e).__name__}'
     header = b'\xff' * 16 + struct.pack('!HB', 19 + len(body), mtype)
+    wire = body
+    if not packets:
+        # the events as they are written without the `packets` option: no hex of the message beside the fields
+        header, body = b'', b''
     out = {}
     for name, enc in encoders().items():
         try:
@@ -505,6 +509,64 @@ def _replay(f):
     return not [x for x in judge(f['input']['type'], body, benign)[0] if x.get('encoder') == f.get('encoder')]
 
 
+# pairs of DIFFERENT messages: in the first a peer-chosen string spells out, with the delimiters of the text format, the
+# fields the second really carries (whole messages in hex: marker, length, type, body)
+FORGED_PAIRS = [
+    ('open: domain name `), software(evil` / a real software-version capability', 'ffffffffffffffffffffffffffffffff00340104fffd00b4010203041702154913016110292c20736f667477617265286576696c', 'ffffffffffffffffffffffffffffffff002d0104fffd00b401020304100205490301610002074b05046576696c'),
+    ('open: host `a b` domain `c` / host `a` domain `b c`', 'ffffffffffffffffffffffffffffffff00270104fffd00b4010203040a02084906036120620163', 'ffffffffffffffffffffffffffffffff00270104fffd00b4010203040a02084906016103622063'),
+    ('update: BGP-LS node name `x large-community 1:2:3` / node name x and a real LARGE_COMMUNITY', 'ffffffffffffffffffffffffffffffff004c0200000033400101004002004003040102030440050400000064801d1b0402001778206c617267652d636f6d6d756e69747920313a323a33080a', 'ffffffffffffffffffffffffffffffff0045020000002c400101004002004003040102030440050400000064801d050402000178c0200c000000010000000200000003080a'),
+    ('update: SR policy name `p" priority 7 policy-name "q` / three real sub-TLVs', 'ffffffffffffffffffffffffffffffff0055020000003c400101004002004003040102030440050400000064c01724000f002082001d007022207072696f72697479203720706f6c6963792d6e616d65202271080a', 'ffffffffffffffffffffffffffffffff00420200000029400101004002004003040102030440050400000064c01711000f000d82000200700f01078200020071080a'),
+    ('open: host name a<LF>b / host name a, backslash, n, b', 'ffffffffffffffffffffffffffffffff00260104fffd00b401020304090207490503610a6200', 'ffffffffffffffffffffffffffffffff00270104fffd00b4010203040a0208490604615c6e6200'),
+    ('operational: advisory <NUL> / advisory backslash x00', 'ffffffffffffffffffffffffffffffff001b060001000400010100', 'ffffffffffffffffffffffffffffffff001e06000100070001015c783030'),
+]
+# one message whose string closes its own quotes and goes on with fields of the event itself
+SELF_FORGED = [('operational: advisory `x" header 0xFF body 0x00 "`', 'ffffffffffffffffffffffffffffffff0034060001001d000101782220686561646572203078464620626f647920307830302022', ' header 0xFF body 0x00 ""')]
+
+
+def forged_case(what, forged, honest):
+    fb, hb = bytes.fromhex(forged), bytes.fromhex(honest)
+    inp = {'what': what, 'type': fb[18], 'forged': forged, 'honest': honest}
+    st1, a = render(fb[18], fb[19:], packets=False)
+    st2, b = render(hb[18], hb[19:], packets=False)
+    if st1 != 'ok' or st2 != 'ok':
+        return None  # refused at decode: nothing is written for it
+    for name in a:
+        if not name.startswith('text') or isinstance(a[name], Exception) or isinstance(b.get(name), Exception) or not a[name]:
+            continue
+        if a[name] == b.get(name):
+            return {'what': f'a peer-chosen string forges fields: two different messages are written as the same text event ({name})', 'input': inp, 'encoder': name, 'event': a[name][:300].decode('ascii', 'replace')}
+    return None
+
+
+def self_forged_case(what, message, tail):
+    mb = bytes.fromhex(message)
+    inp = {'what': what, 'type': mb[18], 'forged': message, 'honest': ''}
+    st, a = render(mb[18], mb[19:], packets=False)
+    if st != 'ok':
+        return None
+    for name, data in a.items():
+        if name.startswith('text') and isinstance(data, bytes) and data.rstrip(b'\n').endswith(tail.encode()):
+            return {'what': f'a peer-chosen string closes its own quotes and writes fields of the event ({name})', 'input': inp, 'encoder': name, 'event': data[:300].decode('ascii', 'replace')}
+    return None
+
+
+@bounded('C13', 'forged-fields-text')
+def forged_fields_text(tier, seed):
+    """PROPERTY: peer-chosen strings appear only as escaped values and cannot add, remove or forge a field.  The text format
+    has delimiters of its own (quotes, parentheses, brackets, the spaces between keywords): two DIFFERENT messages, one
+    spelling out in a string what the other carries in fields, must not be written as the same record."""
+    fails = [f for f in [forged_case(*p) for p in FORGED_PAIRS] + [self_forged_case(*p) for p in SELF_FORGED] if f]
+    return {'evaluations': len(FORGED_PAIRS) + len(SELF_FORGED), 'distinct_nontrivial': len(FORGED_PAIRS) + len(SELF_FORGED), 'bound': f'{len(FORGED_PAIRS)} pairs of different messages (OPEN host / domain / software names, BGP-LS node name against a path attribute, SR policy name against sub-TLVs, a control character against its escaped spelling) and {len(SELF_FORGED)} self-closing advisory, text API v4 and v6', 'rule': 'one case = one pair of messages', 'samples': [{'pair': FORGED_PAIRS[0][0]}], 'failures': fails}
+
+
+@replayer('C13', 'forged-fields-text')
+def _replay_forged(f):
+    i = f['input']
+    if not i['honest']:
+        return all(self_forged_case(*p) is None for p in SELF_FORGED if p[1] == i['forged'])
+    return forged_case(i['what'], i['forged'], i['honest']) is None
+
+
 @bounded('C13', 'oneline-every-code-point')
 def oneline_every_code_point(tier, seed):
     """COMPLETE for its domain: the real oneline() on every one-character string (all 1,114,112 code points, surrogates
@@ -569,8 +631,20 @@ def _hc_text():
     from exabgp.reactor.api.response.v4 import text as T4
     from exabgp.reactor.api.response import text as T6
 
+    import exabgp.bgp.message.open.capability.hostname as HN
+    import exabgp.bgp.message.open.capability.software as SW
+
     body, benign = open_with(_HOST), open_with((b'a' * 33, b'aaa', b'aaaa'))
-    return _canary(T4, 'oneline', str, lambda: _canary(T6, 'oneline', str, lambda: judge(1, body, benign)[0]))
+    # both layers off: oneline() over the whole record, and the escaping the capability classes do for their own strings
+    ident = lambda value, bare=False: str(value)  # noqa: E731
+    layers = [(T4, 'oneline', str), (T6, 'oneline', str)] + [(m, 'peertext', ident) for m in (HN, SW) if hasattr(m, 'peertext')]
+
+    def nest(k):
+        if k == len(layers):
+            return judge(1, body, benign)[0]
+        return _canary(layers[k][0], layers[k][1], layers[k][2], lambda: nest(k + 1))
+
+    return nest(0)
 
 
 @harness_canary('C13', 'duplicate key in an attribute object')
